@@ -97,7 +97,6 @@ func Gen(seed uint64, profile string) *Scenario {
 	}
 	genWorld(simkit.NewRNG(seed, "bw/world"), sc, &k)
 	genAdds(simkit.NewRNG(seed, "bw/adds"), sc, &k)
-	metaTwins(simkit.NewRNG(seed, "bw/meta-twins"), sc)
 	if dr := simkit.NewRNG(seed, "bw/shared-diag"); k.diags && len(sc.Pkgs) >= 2 && dr.Chance(1, 3) {
 		// the same warning (same text, same package-relative file) in two packages: a finder
 		// may well hand out one static value for it every time
@@ -127,6 +126,8 @@ func Gen(seed uint64, profile string) *Scenario {
 			sc.Adds = append([]Add{{Kind: "remote", Addr: sc.Pkgs[0].Source(m.SubPath), Finder: m.Finder}}, sc.Adds...)
 		}
 	}
+	// (after every other source of requests, so that none of them is left naming a range)
+	metaTwins(simkit.NewRNG(seed, "bw/meta-twins"), sc)
 	vr := simkit.NewRNG(seed, "bw/variants")
 	for v := 0; v < nvar; v++ {
 		va := Variant{SchedSeed: vr.U64(), Shape: simkit.Pick(vr, []string{"random", "random", "rr", "rtc"}), PermSalt: 0}
